@@ -15,24 +15,25 @@ namespace AioslskVerif.C04
 open AioslskVerif.FileXfer
 
 /-- **COMPLETE ⇒ the local file is the remote file**, for every file, every sequence of attempts, every
-segmentation and every cut point (honest uploader). -/
+segmentation and every cut point, every `pause()` (also one that lands while a chunk is with the disk-write
+thread) / `queue()`, every cache write and every restart from it (honest uploader of an unchanged file). -/
 theorem C04_complete_exact (F pre : Bytes) (ops : List Op) (hpre : pre <+: F)
     (hon : Honest F (Dl.init pre) ops) (hc : (run (Dl.init pre) ops).st = .complete) :
     (run (Dl.init pre) ops).loc = F := by
-  have hi := inv_run ops _ (inv_init pre)
-  have hh := hinv_run F ops _ (hinv_init F pre hpre) hon
-  have h1 := hi.bt_len (by simp [hc])
+  have hi := inv_run ops _ (inv_init pre true)
+  have hh := hinv_run F ops _ (inv_init pre true) (hinv_init F pre true hpre) hon
   have h2 := hi.complete_size hc
-  have h3 := hh.size (by simp [hc])
+  have h3 := hh.size (Or.inr hc)
   exact hh.pre.eq_of_length (by omega)
 
-/-- **Whatever was cut, wherever: the local file is a prefix of the remote file**, and
-`bytes_transfered` equals its length once an attempt has begun. -/
+/-- **Whatever was cut, paused or restarted, wherever: the local file is a prefix of the remote file**, and
+`bytes_transfered` equals its length while a download runs. -/
 theorem C04_prefix_on_cut (F pre : Bytes) (ops : List Op) (hpre : pre <+: F)
     (hon : Honest F (Dl.init pre) ops) :
     (run (Dl.init pre) ops).loc <+: F ∧
-    ((run (Dl.init pre) ops).st ≠ .queued → (run (Dl.init pre) ops).bt = (run (Dl.init pre) ops).loc.length) :=
-  ⟨(hinv_run F ops _ (hinv_init F pre hpre) hon).pre, (inv_run ops _ (inv_init pre)).bt_len⟩
+    ((run (Dl.init pre) ops).st = .downloading → (run (Dl.init pre) ops).bt = (run (Dl.init pre) ops).loc.length) :=
+  ⟨(hinv_run F ops _ (inv_init pre true) (hinv_init F pre true hpre) hon).pre,
+   (inv_run ops _ (inv_init pre true)).bt_len⟩
 
 /-- **What a cut does to a running download**: a reset / read time-out gives INCOMPLETE, a close by the
 sender gives COMPLETE when everything is there and FAILED("Cancelled") otherwise; in every case the
@@ -48,6 +49,16 @@ theorem C04_cut_outcome (d : Dl) (hs : d.st = .downloading) :
   refine ⟨rfl, rfl, rfl, finish_st d, rfl, rfl, fun a => ?_⟩
   simp [step, canBegin, hs]
 
+/-- **Resume offset, whatever the counter says.** In EVERY state in which an attempt can start — in particular
+with a `bytes_transfered` that lags behind the file (a chunk written but not counted when `pause()` cancelled the
+task; a cache saved before more data arrived) or runs ahead of it (counted bytes lost with the process) — the
+offset put on the wire is the size of the local file, and the counter is set to it. -/
+theorem C04_resume_offset_any_counter (d : Dl) (a : Nat) (lim : Bool) (hb : canBegin d = true) :
+    (step d (.begin a lim)).offset = d.loc.length ∧ (step d (.begin a lim)).bt = d.loc.length ∧
+    (step d (.begin a lim)).loc = d.loc := by
+  simp only [step, hb, if_true, begin]
+  split <;> exact ⟨rfl, rfl, rfl⟩
+
 /-- **Resume offset.** Every attempt that starts puts exactly the local file size on the wire, and (honest
 uploader) what the uploader then sends — `F` from that offset — is exactly what is missing. -/
 theorem C04_resume_offset (F pre : Bytes) (ops : List Op) (hpre : pre <+: F)
@@ -55,20 +66,62 @@ theorem C04_resume_offset (F pre : Bytes) (ops : List Op) (hpre : pre <+: F)
     (hb : canBegin (run (Dl.init pre) ops) = true) :
     (step (run (Dl.init pre) ops) (.begin a lim)).offset = (run (Dl.init pre) ops).loc.length ∧
     (run (Dl.init pre) ops).loc ++ F.drop (step (run (Dl.init pre) ops) (.begin a lim)).offset = F := by
-  have hh := hinv_run F ops _ (hinv_init F pre hpre) hon
-  have ho : (step (run (Dl.init pre) ops) (.begin a lim)).offset = (run (Dl.init pre) ops).loc.length := by
-    simp only [step, hb, if_true, begin]
-    split <;> rfl
+  have hh := hinv_run F ops _ (inv_init pre true) (hinv_init F pre true hpre) hon
+  have ho := (C04_resume_offset_any_counter (run (Dl.init pre) ops) a lim hb).1
   exact ⟨ho, by rw [ho]; exact prefix_drop hh.pre⟩
 
-/-- **Dishonest senders** (any bytes, any announced sizes, too few, too many, wrong offset): COMPLETE is
-reached only with a local file of exactly the announced size. -/
-theorem C04_dishonest (pre : Bytes) (ops : List Op) (hc : (run (Dl.init pre) ops).st = .complete) :
-    (run (Dl.init pre) ops).loc.length = (run (Dl.init pre) ops).filesize := by
-  have hi := inv_run ops _ (inv_init pre)
-  have h1 := hi.bt_len (by simp [hc])
-  have h2 := hi.complete_size hc
-  omega
+/-- **Dishonest senders / changing announcements** (any bytes, any announced sizes — also another size in every
+attempt —, too few, too many, wrong offset; any user action, any restart): COMPLETE is reached only with a local
+file of exactly the size announced by the request of the attempt that completed (`ann` is set by `begin` from the
+request and by nothing else). -/
+theorem C04_dishonest (pre : Bytes) (hp : Bool) (ops : List Op) (hc : (run (Dl.init pre hp) ops).st = .complete) :
+    (run (Dl.init pre hp) ops).loc.length = (run (Dl.init pre hp) ops).ann :=
+  (inv_run ops _ (inv_init pre hp)).complete_size hc
+
+/-- **The remote file changes between the attempts** (it grew, shrank, became empty, was replaced; the honest
+uploader measures it again and announces the new size; `remote F'`): a download that reaches COMPLETE holds
+exactly as many bytes as the file served in the attempt that completed, and from the offset of that attempt on it
+IS that file. (What lies before the offset came from earlier versions of the file: the protocol has no means to
+compare it, nothing is claimed about it here — see `C04_complete_exact_growing`.) -/
+theorem C04_complete_served (pre F₀ : Bytes) (hp : Bool) (ops : List Op)
+    (hon : HonestV { Dl.init pre hp with remote := F₀ } ops)
+    (hc : (run { Dl.init pre hp with remote := F₀ } ops).st = .complete) :
+    (run { Dl.init pre hp with remote := F₀ } ops).loc.length =
+      (run { Dl.init pre hp with remote := F₀ } ops).served.length ∧
+    (run { Dl.init pre hp with remote := F₀ } ops).loc.drop (run { Dl.init pre hp with remote := F₀ } ops).offset =
+      (run { Dl.init pre hp with remote := F₀ } ops).served.drop (run { Dl.init pre hp with remote := F₀ } ops).offset := by
+  have hi0 : Inv { Dl.init pre hp with remote := F₀ } := by
+    have := inv_init pre hp
+    exact ⟨this.bt_len, this.size_ann, this.complete_size, this.running, this.path, this.saved_complete,
+           this.saved_running, this.saved_path⟩
+  have hi := inv_run ops _ hi0
+  have ha := ainv_run ops _ hi0 (ainv_init pre hp F₀) hon
+  generalize run { Dl.init pre hp with remote := F₀ } ops = d at hc hi ha
+  obtain ⟨h1, h2, h3⟩ := ha.att (Or.inr hc)
+  have h4 := hi.complete_size hc
+  refine ⟨by omega, h2.eq_of_length ?_⟩
+  rw [List.length_drop, List.length_drop]; omega
+
+/-- … and when the file only ever GROWS at its end (a log, a recording) the finished file is the whole remote
+file as it was served in the attempt that completed — although its size was announced differently in every
+attempt. -/
+theorem C04_complete_exact_growing (pre F₀ : Bytes) (ops : List Op) (hpre : pre <+: F₀)
+    (hon : HonestV { Dl.init pre with remote := F₀ } ops) (hg : Grows { Dl.init pre with remote := F₀ } ops)
+    (hc : (run { Dl.init pre with remote := F₀ } ops).st = .complete) :
+    (run { Dl.init pre with remote := F₀ } ops).loc = (run { Dl.init pre with remote := F₀ } ops).served := by
+  have hi0 : Inv { Dl.init pre with remote := F₀ } := by
+    have := inv_init pre true
+    exact ⟨this.bt_len, this.size_ann, this.complete_size, this.running, this.path, this.saved_complete,
+           this.saved_running, this.saved_path⟩
+  have hg0 : GInv { Dl.init pre with remote := F₀ } := ⟨by simpa [Dl.init] using hpre, fun hq => by simp [Dl.init] at hq⟩
+  have hi := inv_run ops _ hi0
+  have ha := ainv_run ops _ hi0 (ainv_init pre true F₀) hon
+  have hgi := ginv_run ops _ hi0 hg0 hon hg
+  generalize run { Dl.init pre with remote := F₀ } ops = d at hc hi ha hgi
+  obtain ⟨_, _, h3⟩ := ha.att (Or.inr hc)
+  have h4 := hi.complete_size hc
+  have hp : d.loc <+: d.served := List.prefix_of_prefix_length_le hgi.pre (hgi.srv (Or.inr hc)) (by omega)
+  exact hp.eq_of_length (by omega)
 
 /-- **Upload COMPLETE ⇒ every byte from the negotiated offset was written and the peer closed** — for every
 file, every offset the downloader may send (also beyond the size), every interleaving of chunks, write
@@ -108,7 +161,8 @@ theorem C04_progress (F : Bytes) (d : Dl) (lim : Bool) (segs : List Bytes)
     have hbeg : begin d F.length lim =
         finish { d with filesize := F.length, offset := d.loc.length, bt := d.loc.length,
                         remaining := (F.length : Int) - (d.loc.length : Int), received := 0,
-                        chunk := chunkOf lim, st := .downloading, closed := false, log := [] } := by
+                        chunk := chunkOf lim, st := .downloading, closed := false, log := [],
+                        hasPath := true, ann := F.length, served := d.remote } := by
       unfold begin; dsimp only; rw [if_pos]; omega
     rw [hbeg, run_not_downloading_segs _ _ (finish_st_ne_downloading _)]
     refine ⟨?_, ?_, rfl⟩
@@ -117,18 +171,38 @@ theorem C04_progress (F : Bytes) (d : Dl) (lim : Bool) (segs : List Bytes)
   · have hbeg : begin d F.length lim =
         { d with filesize := F.length, offset := d.loc.length, bt := d.loc.length,
                  remaining := (F.length : Int) - (d.loc.length : Int), received := 0,
-                 chunk := chunkOf lim, st := .downloading, closed := false, log := [] } := by
+                 chunk := chunkOf lim, st := .downloading, closed := false, log := [],
+                        hasPath := true, ann := F.length, served := d.remote } := by
       unfold begin; dsimp only; rw [if_neg]; omega
     rw [hbeg]
     have := run_segs_honest segs
       { d with filesize := F.length, offset := d.loc.length, bt := d.loc.length,
                remaining := (F.length : Int) - (d.loc.length : Int), received := 0,
-               chunk := chunkOf lim, st := .downloading, closed := false, log := [] } []
+               chunk := chunkOf lim, st := .downloading, closed := false, log := [],
+                        hasPath := true, ann := F.length, served := d.remote } []
       rfl rfl (chunkOf_pos lim) (by dsimp only; simp only [List.length_nil]; omega)
       (by dsimp only; simp only [List.length_nil]; omega) (by simp only [List.length_nil]; omega)
     obtain ⟨h1, h2, _⟩ := this
     obtain ⟨hc, hcl⟩ := h2 rfl
     exact ⟨hc, by rw [h1]; exact hsegs, hcl⟩
+
+/-- **Whatever happened before, one fault-free attempt finishes the file.** After ANY history against an honest
+uploader — cuts at any byte, `pause()` with a chunk on disk that was never counted, `queue()`, a restart from a
+cache saved at any earlier moment (stale counter, bytes lost with the process) — in which an attempt can start,
+the attempt that delivers what is missing, in any segmentation, ends COMPLETE with the local file equal to `F`. -/
+theorem C04_resume_completes (F pre : Bytes) (ops : List Op) (hpre : pre <+: F)
+    (hon : Honest F (Dl.init pre) ops) (lim : Bool) (segs : List Bytes)
+    (hb : canBegin (run (Dl.init pre) ops) = true)
+    (hsegs : segs.flatten = F.drop (run (Dl.init pre) ops).loc.length) :
+    (run (Dl.init pre) (ops ++ .begin F.length lim :: segs.map .seg)).st = .complete ∧
+    (run (Dl.init pre) (ops ++ .begin F.length lim :: segs.map .seg)).loc = F := by
+  have hh := hinv_run F ops _ (inv_init pre true) (hinv_init F pre true hpre) hon
+  have hrun : run (Dl.init pre) (ops ++ .begin F.length lim :: segs.map .seg) =
+      run (run (Dl.init pre) ops) (.begin F.length lim :: segs.map .seg) := by
+    simp only [run, List.foldl_append]
+  rw [hrun]
+  have := C04_progress F (run (Dl.init pre) ops) lim segs hb (by rw [hsegs]; exact prefix_drop hh.pre)
+  exact ⟨this.1, this.2.1⟩
 
 /-- **Progress (download), measure step.** While a download runs against an honest uploader, a delivery
 is consumed completely and exactly (nothing lost, nothing beyond it written): the number of missing bytes
@@ -140,13 +214,13 @@ theorem C04_progress_measure (F pre : Bytes) (ops : List Op) (hpre : pre <+: F)
     (step (run (Dl.init pre) ops) (.seg bs)).loc = (run (Dl.init pre) ops).loc ++ bs ∧
     ((run (Dl.init pre) ops).loc ++ bs = F → bs ≠ [] → (step (run (Dl.init pre) ops) (.seg bs)).st = .complete) ∧
     ((run (Dl.init pre) ops).loc ++ bs ≠ F → (step (run (Dl.init pre) ops) (.seg bs)).st = .downloading) := by
-  have hh := hinv_run F ops _ (hinv_init F pre hpre) hon
-  have hi := inv_run ops _ (inv_init pre)
+  have hh := hinv_run F ops _ (inv_init pre true) (hinv_init F pre true hpre) hon
+  have hi := inv_run ops _ (inv_init pre true)
   generalize run (Dl.init pre) ops = d at hs hbs hh hi
   obtain ⟨t, ht⟩ := hbs
   have hF : d.loc ++ (bs ++ t) = F := by rw [ht]; exact prefix_drop hh.pre
-  have hfs := hh.size (by simp [hs])
-  have hbt := hi.bt_len (by simp [hs])
+  have hfs : d.filesize = F.length := (hi.size_ann hs).trans (hh.size (Or.inl hs))
+  have hbt := hi.bt_len hs
   obtain ⟨hc, hlt, hrem⟩ := hi.running hs
   have hlen : F.length = d.loc.length + bs.length + t.length := by
     rw [← hF]; simp only [List.length_append]; omega
@@ -200,6 +274,38 @@ example : (run (Dl.init []) [.begin 5 true, .seg [1, 2], .err, .begin 5 false, .
     = .complete := by decide
 example : (run (Dl.init []) [.begin 3 false, .seg [9, 9, 9, 9]]).st = .failedCancelled := by decide
 example : (run (Dl.init []) [.begin 0 false]).st = .complete := by decide
+/-! `pause()` while a chunk is with the disk-write thread: on disk (4 bytes), not counted (2); `queue()`, resume -/
+example : (run (Dl.init []) [.begin 5 false, .seg [1, 2], .pauseWrite [3, 4]]).st = .paused ∧
+    (run (Dl.init []) [.begin 5 false, .seg [1, 2], .pauseWrite [3, 4]]).bt = 2 ∧
+    (run (Dl.init []) [.begin 5 false, .seg [1, 2], .pauseWrite [3, 4]]).loc = [1, 2, 3, 4] := by decide
+example : Honest [1, 2, 3, 4, 5] (Dl.init [])
+    [.begin 5 false, .seg [1, 2], .pauseWrite [3, 4], .queue, .begin 5 true, .seg [5]] := by
+  simp only [Honest]; decide
+example : (run (Dl.init []) [.begin 5 false, .seg [1, 2], .pauseWrite [3, 4], .queue, .begin 5 true]).offset = 4 ∧
+    (run (Dl.init []) [.begin 5 false, .seg [1, 2], .pauseWrite [3, 4], .queue, .begin 5 true, .seg [5]]).st
+      = .complete := by decide
+/-! cache saved after 1 byte, 2 more arrive, the client dies: counter 1, file 3 bytes (or, bytes lost with the
+process: counter 1, file empty); the new instance resumes at the file size -/
+example : (run (Dl.init []) [.begin 5 false, .seg [1], .save, .seg [2, 3], .crash 3]).st = .incomplete ∧
+    (run (Dl.init []) [.begin 5 false, .seg [1], .save, .seg [2, 3], .crash 3]).bt = 1 ∧
+    (run (Dl.init []) [.begin 5 false, .seg [1], .save, .seg [2, 3], .crash 3]).loc = [1, 2, 3] ∧
+    (run (Dl.init []) [.begin 5 false, .seg [1], .save, .seg [2, 3], .crash 0]).loc = [] ∧
+    (run (Dl.init []) [.begin 5 false, .seg [1], .save, .seg [2, 3], .crash 3, .begin 5 false]).offset = 3 := by
+  decide
+/-! the remote file grows from 3 to 5 bytes between the attempts; a read ends exactly at the old end -/
+example : HonestV { Dl.init [] with remote := [1, 2, 3] }
+      [.begin 3 false, .seg [1, 2], .err, .remote [1, 2, 3, 4, 5], .begin 5 false, .seg [3], .seg [4, 5]] ∧
+    Grows { Dl.init [] with remote := [1, 2, 3] }
+      [.begin 3 false, .seg [1, 2], .err, .remote [1, 2, 3, 4, 5], .begin 5 false, .seg [3], .seg [4, 5]] := by
+  simp only [HonestV, Grows]; decide
+example : (run { Dl.init [] with remote := [1, 2, 3] }
+      [.begin 3 false, .seg [1, 2], .err, .remote [1, 2, 3, 4, 5], .begin 5 false, .seg [3]]).st = .downloading ∧
+    (run { Dl.init [] with remote := [1, 2, 3] }
+      [.begin 3 false, .seg [1, 2], .err, .remote [1, 2, 3, 4, 5], .begin 5 false, .seg [3], .seg [4, 5]]).loc
+      = [1, 2, 3, 4, 5] := by decide
+/-! the remote file shrank below what the downloader holds: never COMPLETE -/
+example : (run { Dl.init [] with remote := [1, 2, 3] }
+      [.begin 3 false, .seg [1, 2], .err, .remote [1], .begin 1 false]).st = .failedCancelled := by decide
 example : (urun [1, 2, 3, 4, 5] (Ul.init [1, 2, 3, 4, 5]) [.begin 2 true, .chunk, .chunk, .closed]).st
     = .complete := by decide
 example : (urun [1, 2, 3] (Ul.init [1, 2, 3]) [.begin 3 true, .chunk, .closed]).st = .complete := by decide
